@@ -550,7 +550,15 @@ class Evaluator:
             return a
         if a.kind not in ("int", "real"):
             raise Unsupported("neg %s" % a.kind)
+        if a.kind == "int":
+            self._overflow(sc, a.null, -a.val, "negation")
         return SV(a.kind, a.null, -a.val)
+
+    def _overflow(self, sc, nl, val, what):
+        """BIGINT arithmetic raises 'Out of Range Error: Overflow' when the result leaves the int64 range; only modelled when the
+        inputs range over the whole BIGINT domain (opts int64) - under the usual small bound it cannot happen."""
+        if getattr(self.ctx, "int64", False):
+            self.ctx.error(z3.And(sc.guard, z3.Not(nl), z3.Or(val > 2 ** 63 - 1, val < -2 ** 63)), "duckdb:int64-overflow:" + what)
 
     def x_Not(self, e, sc):
         a = self.expr(e.this, sc)
@@ -583,6 +591,10 @@ class Evaluator:
         if k not in ("int", "real"):
             raise Unsupported("arith on %s" % k)
         nl = z3.Or(a.null, b.null)
+        if op in "+-*" and k == "int":
+            res = a.val + b.val if op == "+" else a.val - b.val if op == "-" else a.val * b.val
+            self._overflow(sc, nl, res, {"+": "addition", "-": "subtraction", "*": "multiplication"}[op])
+            return SV(k, nl, res)
         if op == "+":
             return SV(k, nl, a.val + b.val)
         if op == "-":
@@ -865,6 +877,8 @@ class Evaluator:
         a = self.expr(e.this, sc)
         if a.kind == "null":
             return a
+        if a.kind == "int":
+            self._overflow(sc, a.null, -a.val, "abs")
         return SV(a.kind, a.null, z3.If(a.val >= 0, a.val, -a.val))
 
     def x_Ceil(self, e, sc):
